@@ -331,6 +331,70 @@ def operator_table(chk, F):
                "Value::sub arms: %s - `duration - date` is accepted%s" % (ps, " and evaluated as date - duration" if ("Number", "DateTime") in ps else ""))
 
 
+TIME_FIELDS = {"hour_div_12", "hour_mod_12", "minute", "second", "nanosecond"}
+
+
+def fallback_guards(chk, F, fn, fk):
+    """(3) in `attempt`, today's date stands in for the date only when no date field was written, and midnight for the time only
+    when no time field was written: chrono's Err from to_naive_date()/to_naive_time() also means "written but impossible"
+    (February 30th, ordinal 366, a weekday that does not match).  Writer/reader agreement: every field of `Parsed` that
+    parse_date assigns (offset aside) must be tested by the guard of the arm that replaces its half."""
+    pd = F.find(CORE, "parsing::datetime::parse_date")
+    written = set()
+    for f in [pd]:
+        hh = F.hir_of(f)
+        for n in hir_walk(hh["body"]):
+            if n.get("k") == "Assign" and n["lhs"].get("k") == "Field" and str(n["lhs"].get("of_ty", "")).endswith("format::parsed::Parsed"):
+                written.add(n["lhs"]["name"])
+    if len(written) < 12:
+        raise AnchorLost("parse_date: only %d fields of Parsed are assigned (expected >= 12)" % len(written))
+    want = {"date": {w for w in written if w not in TIME_FIELDS and w != "offset"}, "time": written & TIME_FIELDS}
+    h = F.hir_of(fn)
+    lets = {}
+    for n in hir_walk(h["body"]):
+        if n.get("sk") == "let" and (n.get("pat") or {}).get("pk") == "bind" and n.get("init"):
+            lets[n["pat"]["lid"]] = n["init"]
+
+    def fields_of(e, depth=0):
+        """Fields f of a disjunction of `parsed.f.is_some()`; None when the expression has any other shape."""
+        if e.get("k") == "Binary" and e.get("op") == "Or":
+            a, b = fields_of(e["a"], depth), fields_of(e["b"], depth)
+            return None if a is None or b is None else a | b
+        if e.get("k") == "MethodCall" and e["name"] == "is_some" and e["recv"].get("k") == "Field" and str(e["recv"].get("of_ty", "")).endswith("format::parsed::Parsed"):
+            return {e["recv"]["name"]}
+        ln = H.local_name(e) if e.get("k") == "Path" else None
+        if ln and ln[1] in lets and depth < 3:
+            return fields_of(lets[ln[1]], depth + 1)
+        if e.get("k") in ("Paren", "DropTemps") and e.get("e"):
+            return fields_of(e["e"], depth)
+        return None
+
+    matches = [m for m in hir_walk(h["body"]) if m.get("k") == "Match" and m.get("src") == "Normal" and m["scrut"].get("k") == "Tup"
+               and len(m["scrut"].get("es", m["scrut"].get("elems", []))) == 2]
+    if not matches:
+        matches = [m for m in hir_walk(h["body"]) if m.get("k") == "Match" and m.get("src") == "Normal" and
+                   any(H.pat_str(a["pat"]).replace(" ", "").startswith("(Result::Ok(") for a in m["arms"])]
+    if len(matches) != 2:
+        raise AnchorLost("attempt: expected the two `match (time, date)` tables, found %d" % len(matches))
+    for mi, m in enumerate(matches):
+        for a in m["arms"]:
+            ptxt = H.pat_str(a["pat"]).replace(" ", "")
+            half = "date" if ptxt.startswith("(Result::Ok(") and ",Result::Err(" in ptxt else ("time" if ptxt.startswith("(Result::Err(") and ",Result::Ok(" in ptxt else None)
+            if half is None:
+                continue
+            g = a.get("guard")
+            got = None
+            if g is not None and g.get("k") == "Unary" and g.get("op") == "Not":
+                got = fields_of(g["a"])
+            missing = sorted(want[half] - (got or set()))
+            chk.decide(got is not None and not missing, "literal-fields", fk, "%s-fallback-only-when-absent:%s" % ({"date": "today", "time": "midnight"}[half], ("zone", "offset")[mi]),
+                       "%s:%d" % (fn.file, a["line"]),
+                       "%s replaces the %s only when none of %s was written" % ({"date": "today", "time": "midnight"}[half], half, sorted(want[half])),
+                       "%s replaces the %s whenever chrono cannot build it%s: `#2021-02-30 10:00#` denotes today at 10:00, `#2021-366 10:00#` and a weekday "
+                       "that does not match likewise" % ({"date": "today", "time": "midnight"}[half], half,
+                                                          (" (the guard does not test %s)" % missing) if got is not None else " (the arm has no guard over the written fields)"))
+
+
 def literal_fields(chk, F):
     """A written field of a date literal is either honoured or refused, never silently replaced:
     (1) in `attempt`, the result of Parsed::to_fixed_offset is not defaulted with unwrap_or/unwrap_or_else (that reads an offset
@@ -347,6 +411,7 @@ def literal_fields(chk, F):
     chk.decide(not defaulted, "literal-fields", fk, "written-offset-not-defaulted", fn.where(bb),
                "an out-of-range offset is an error; UTC is used only when no offset was written",
                "the result of to_fixed_offset() is defaulted with %s: `#2020-01-01 10:00 +9900#` is read as UTC instead of being refused" % defaulted)
+    fallback_guards(chk, F, fn, fk)
     pd = F.find(CORE, "parsing::datetime::parse_date")
     h = F.hir_of(pd)
     # the `sec` arm: every inner arm that stores out.second is bounded
